@@ -101,8 +101,9 @@ def convArrayItem (e : Env) (r : Rec) (c : Ctx) (x : ANode) : M (Option Doc) := 
 
 /-- `convert_array`. -/
 def convArray (e : Env) (r : Rec) (ctx : Ctx) (n : ANode) : M Doc := do
-  let ctx := ctx.withMode .codeCont
   let isExplicit := (n.children.head?.map (·.kind == .leftParen)).getD false
+  -- a row of 2-D math args (implicit array) stays in the mode of its context
+  let ctx := if isExplicit then ctx.withMode .codeCont else ctx
   let endsWithComma := !isExplicit && ((n.children.getLast?.map (·.kind == .comma)).getD false)
   let ls := ({} : LS).withFold (foldStyle ctx n)
   let ls ← ls.processM e ctx n.children (convArrayItem e r)
@@ -162,7 +163,7 @@ def convParams (e : Env) (r : Rec) (ctx : Ctx) (n : ANode) (isUnnamed : Bool) : 
 def closureProducer (e : Env) (r : Rec) (isNamed : Bool) (la : Nat) (c : Ctx) (child : ANode) : M (Nat × Option FlowItem) := do
   if child.kind == .eq then pure (la, spaced (← e.synLeaf child "="))
   else if child.kind == .arrow then pure (la, spaced (← e.synLeaf child "=>"))
-  else if la == 0 && child.kind == .ident then pure (1, tight (e.tok child.text))
+  else if la == 0 && child.kind == .ident then pure (1, tight (e.lit child.text))
   else if la == 1 && child.kind == .params then pure (2, tightSpaced (← convParams e r c child (!isNamed)))
   else if la ≥ 2 && isExpr child then
     let useBraces := if child.kind == .binary then !isChainableBinary child else true
@@ -207,9 +208,12 @@ def convParenthesized (e : Env) (r : Rec) (ctx : Ctx) (n : ANode) : M Doc := do
   let p ← childOr (n.children.find? isPattern) "Parenthesized without pattern"
   if p.kind == .parenthesized && !hasCommentChildren n then r.paren ctx p
   else
-    let x := (n.children.find? isExpr).getD p
-    let canOmit := (x.kind.isLiteral || x.kind == .array || x.kind == .dict || x.kind == .destructuring
-      || x.kind == .codeBlock || x.kind == .contentBlock) && !hasCommentChildren n
+    -- `Parenthesized::expr()` is `Expr::default()` (the literal `none`) when no child is an expression, e.g. `(_)`
+    let omittable : Bool := match n.children.find? isExpr with
+      | some x => x.kind.isLiteral || x.kind == .array || x.kind == .dict || x.kind == .destructuring
+          || x.kind == .codeBlock || x.kind == .contentBlock
+      | none => true
+    let canOmit := omittable && !hasCommentChildren n
     let ls := ({} : LS).withFold (foldStyle ctx n)
     let ls ← ls.processM e ctx n.children (parenItem r)
     pure (ls.print e { e.parenStyle with sep := Doc.nil, omitDelimFlat := canOmit })
@@ -292,6 +296,10 @@ def endsWithHashedExpr : ANode → Bool
 def endsWithHashedExprL (prevHash : Bool) : List ANode → Bool
   | [] => false
   | [a] => (prevHash && isExpr a) || endsWithHashedExpr a
+  | [a, b] =>
+    -- a trailing semicolon is the terminator of the hashed expression itself
+    if b.kind == .semicolon then (prevHash && isExpr a) || endsWithHashedExpr a
+    else (a.kind == .hash && isExpr b) || endsWithHashedExpr b
   | a :: rest => endsWithHashedExprL (a.kind == .hash) rest
 end
 
@@ -457,10 +465,17 @@ def resolveBinaryChain (prec : Nat) : Nat → ANode → List ANode
     else [])
 
 /-- `convert_field_access_plain`. -/
+def fieldAccessProducer (e : Env) (r : Rec) (_ : Unit) (c : Ctx) (child : ANode) : M (Unit × Option FlowItem) := do
+  if child.kind == .dot then pure ((), tight (← e.synLeaf child "."))
+  else if isExpr child then pure ((), tight (← r.expr c child))
+  else pure ((), none)
+
 def convFieldAccessPlain (e : Env) (r : Rec) (ctx : Ctx) (n : ANode) : M Doc := do
+  -- with comments (code whose breaks are suppressed): a flow, so that they are kept
+  if hasCommentChildren n then return (← flowM e ctx n.children () (fieldAccessProducer e r))
   let t ← childOr (firstWhere n isExpr) "FieldAccess without target"
   let f ← childOr (lastWhere n (·.kind == .ident)) "FieldAccess without field"
-  pure (((← r.expr ctx t) ++ e.syn ".") ++ e.tok f.text)
+  pure (((← r.expr ctx t) ++ e.syn ".") ++ e.lit f.text)
 
 def fieldOf (c : ANode) : String := ((lastWhere c (·.kind == .ident)).map ANode.text).getD ""
 
@@ -473,7 +488,7 @@ def tryDotChainPlain (e : Env) (r : Rec) (ctx : Ctx) (chain : List ANode) : M (O
     let est := id.text.utf8ByteSize + ((chain.drop 1).map fun c =>
       if c.kind == .fieldAccess then (fieldOf c).utf8ByteSize + 1 else 0).sum
     if est ≥ chainWidth e.cfg.maxWidth then return none
-    let doc := chain.foldl (fun doc c => if c.kind == .fieldAccess then doc ++ (e.syn "." ++ e.tok (fieldOf c)) else doc) (e.tok id.text)
+    let doc := chain.foldl (fun doc c => if c.kind == .fieldAccess then doc ++ (e.syn "." ++ e.lit (fieldOf c)) else doc) (e.lit id.text)
     let args ← childOr (lastWhere fc (·.kind == .args)) "FuncCall without Args"
     pure (some (doc ++ (← convArgs e r ctx args)))
   | _, _ => pure none
@@ -482,7 +497,7 @@ def dotOp (e : Env) (c : ANode) : M (Option Doc) := do
   if c.kind == .dot then pure (some (← e.synLeaf c ".")) else pure none
 
 def dotRhs (e : Env) (_ : Ctx) (c : ANode) : M (Option Doc) :=
-  pure (if c.kind == .ident then some (e.tok c.text) else none)
+  pure (if c.kind == .ident then some (e.lit c.text) else none)
 
 def dotFallback (e : Env) (r : Rec) (ctx : Ctx) (node : ANode) : M (Option Doc) := do
   if node.kind == .funcCall then
@@ -557,7 +572,7 @@ def convFuncCall (e : Env) (r : Rec) (ctx : Ctx) (n : ANode) : M Doc := do
 
 def setProducer (e : Env) (r : Rec) (_ : Unit) (c : Ctx) (child : ANode) : M (Unit × Option FlowItem) := do
   if isExpr child then pure ((), spaced (← r.expr c child))
-  else if child.kind == .args then pure ((), tightSpaced (← convParenArgs e r c child))
+  else if child.kind == .args then pure ((), tightSpaced (← convArgs e r c child))
   else if child.kind == .space then pure ((), none)
   else reject (.dropped "convert_set_rule" child.kind)
 
@@ -568,7 +583,7 @@ def convSetRule (e : Env) (r : Rec) (ctx : Ctx) (n : ANode) : M Doc :=
 /-! ### import.rs -/
 def importPathProducer (e : Env) (_ : Unit) (_ : Ctx) (child : ANode) : M (Unit × Option FlowItem) := do
   if child.kind == .dot then pure ((), tight (← e.synLeaf child "."))
-  else if child.kind == .ident then pure ((), tight (e.tok child.text))
+  else if child.kind == .ident then pure ((), tight (e.lit child.text))
   else if child.kind == .space then pure ((), none)
   else reject (.dropped "convert_import_item_path" child.kind)
 
@@ -577,7 +592,7 @@ def convImportItemPath (e : Env) (ctx : Ctx) (n : ANode) : M Doc :=
 
 def importRenamedProducer (e : Env) (_ : Unit) (c : Ctx) (child : ANode) : M (Unit × Option FlowItem) := do
   if child.kind == .importItemPath then pure ((), spaced (← convImportItemPath e c child))
-  else if child.kind == .ident then pure ((), spaced (e.tok child.text))
+  else if child.kind == .ident then pure ((), spaced (e.lit child.text))
   else if child.kind == .space then pure ((), none)
   else reject (.dropped "convert_import_item_renamed" child.kind)
 
@@ -628,7 +643,7 @@ def importPrefixProducer (e : Env) (r : Rec) (_ : Unit) (c : Ctx) (child : ANode
   | .colon => pure ((), tightSpaced (← e.synLeaf child ":"))
   | .star => pure ((), spaced (← e.synLeaf child "*"))
   | _ =>
-    if child.kind == .ident then pure ((), spaced (e.tok child.text))
+    if child.kind == .ident then pure ((), spaced (e.lit child.text))
     else if isExpr child then pure ((), spaced (← r.expr c child))
     else if child.kind == .space then pure ((), none)
     else reject (.dropped "convert_import" child.kind)
